@@ -657,6 +657,9 @@ def selftest():
     V = []
     b = lambda name, file, old, new, rule, expect="", **kw: V.append(dict(name=name, kind="break", file=file, old=old, new=new, rule=rule, expect=expect, **kw))
     n = lambda name, file, old, new, **kw: V.append(dict(name=name, kind="neutral", file=file, old=old, new=new, **kw))
+    TD_ = "phonopy/phonon/thermal_displacement.py"
+    b("occupation buffer typed like the temperatures the caller passed", TD_, '            vals = np.zeros(len(t), dtype="double")', "            vals = np.zeros_like(t)", "R19y.likedtype", "_get_population")
+    n("occupation buffer typed like the temperatures but forced to double", TD_, '            vals = np.zeros(len(t), dtype="double")', '            vals = np.zeros_like(t, dtype="double")')
     b("atomic phases broadcast over the band axis", RD, "        eigvecs = []\n        # Transform eigenvectors of D-type to those of C-type\n        for q, eigvec in zip(qpoints, self._eigvecs_ii):\n            Vd = np.repeat(np.exp(-2j * np.pi * np.dot(self._ppos, q)), 3)\n            eigvecs.append((Vd * eigvec.T).T)\n", "        Vd = np.repeat(np.exp(-2j * np.pi * np.dot(qpoints, self._ppos.T)), 3, axis=1)\n        eigvecs = Vd[:, None, :] * np.array(self._eigvecs_ii)\n", "R19m", "_collect_eigensolutions")
     n("atomic phases broadcast over the component axis", RD, "        eigvecs = []\n        # Transform eigenvectors of D-type to those of C-type\n        for q, eigvec in zip(qpoints, self._eigvecs_ii):\n            Vd = np.repeat(np.exp(-2j * np.pi * np.dot(self._ppos, q)), 3)\n            eigvecs.append((Vd * eigvec.T).T)\n", "        Vd = np.repeat(np.exp(-2j * np.pi * np.dot(qpoints, self._ppos.T)), 3, axis=1)\n        eigvecs = Vd[:, :, None] * np.array(self._eigvecs_ii)\n")
     b("API hands the row-vector lattice to the CIF transformation", "phonopy/api_phonopy.py", "            lattice=self._primitive.cell.T,", "            lattice=self._primitive.cell,", "R19q", "lattice=")
